@@ -325,6 +325,34 @@ def op_signature(prog) -> str:
     return op_signature(prog[1]) + short[op]
 
 
+def hidden_collision_join(g: Gen, rng, eng):
+    """Join of two projections of leaves that have the same columns, each projection hiding a
+    column the other one keeps (crossing collision of hidden and visible column names): every
+    output column has to come from the operand that exposes it."""
+    pool = list("abc") + [rng.choice(["d", "x"])]
+    cols = sorted(rng.sample(pool, rng.randint(3, 4)))
+    l1 = g.leaf(eng, want_cols=cols, allow_special=False)
+    l2 = g.leaf(eng, want_cols=cols, allow_special=False)
+    shared = sorted(set(l1[1]) & set(l2[1]))
+    for _ in range(20):
+        h1, h2 = rng.choice(shared), rng.choice(shared)
+        if h1 != h2:
+            break
+    else:
+        return None
+    p1 = {c for c in l1[1] if c != h1 and (c == h2 or rng.random() < 0.7)}
+    p2 = {c for c in l2[1] if c != h2 and (c == h1 or rng.random() < 0.7)}
+    # a non-key column may be visible on one side only (otherwise the join is ambiguous)
+    for c in list(p1 & p2):
+        if not is_key(c):
+            (p1 if rng.random() < 0.5 else p2).discard(c)
+    lhs = ["proj", l1[0], sorted(p1), None]
+    rhs = ["proj", l2[0], sorted(p2), None]
+    allc = frozenset(p1 | p2)
+    pred = gen_p(rng, allc, 1) if rng.random() < 0.3 else None
+    return ["join", lhs, rhs, pred, None], allc, eng
+
+
 def chain_with_name_twin(g: Gen, state, rng):
     """Chain a program with the same program over "twin" leaves: same library name, columns and
     engine (so the relations compare equal) but different rows and truthful bounds of their own.
